@@ -40,7 +40,10 @@ def run(pid, tier, seed, replay=None):
         so = _so(wd)
         exe = vlib.build_driver("c08_driver", "opt")
         obs = []
-        tables = [0, 3, 5] if tier == "quick" else [0, 1, 2, 3, 4, 5, 6, 7]
+        # 8..15: the shapes 0..7 with 49 keys (the header outgrows its block after the data were written); 16: 40 x 359, 49 keys
+        tables = [0, 3, 5, 9, 11, 16] if tier == "quick" else [0, 1, 2, 3, 4, 5, 6, 7, 8, 9, 10, 11, 12, 14, 16]
+        if os.environ.get("VERIF_C08_TABLES"):          # experiments: an explicit list of catalogue ids
+            tables = [int(t) for t in os.environ["VERIF_C08_TABLES"].split(",")]
         nscen = 0
         for tid in tables:
             target = os.path.join(shm, "t%d.fits" % tid)
@@ -151,7 +154,7 @@ def run(pid, tier, seed, replay=None):
         ck.cov["traces_validated_against_impl"] = len(obs)
         ck.cov["evaluations"] = len(obs)
         ck.cov["distinct_nontrivial"] = nscen
-        ck.cov["rule"] = ("per catalogue table: one crash scenario per operation boundary plus byte prefixes of every write (all byte counts for the one-block table), "
+        ck.cov["rule"] = ("catalogue: 8 shapes (1..5-D, 4 .. 200000 coefficients) with one key and with 49 keys (header grows after the data were written); per catalogue table: one crash scenario per operation boundary plus byte prefixes of every write (all byte counts for the one-block table), "
                           "one failing-operation scenario per recorded operation x errno x {C++, C} entry point, five RLIMIT_FSIZE limits")
         ck.sample(obs[1])
         ck.sample(obs[-1])
